@@ -467,5 +467,8 @@ def run_replay(prop, path):
 
 
 if __name__ == '__main__':
+    # run through the canonical module object (vf.runner), not the __main__ copy: exception classes
+    # must be identical for the property modules and the driver
+    from vf import runner as _canonical
     if sys.argv[1] == 'worker':
-        sys.exit(worker_main(sys.argv[2:]))
+        sys.exit(_canonical.worker_main(sys.argv[2:]))
